@@ -348,3 +348,122 @@ def _mc_instances(m):
 
 
 CUSTOM['pane.convert:make_converter'] = _mc_instances
+
+
+# ---- C20: bounded domain of field names -----------------------------------------------------------------------------
+def _rename_instances(bad):
+    import itertools
+    import importlib
+    fm = importlib.import_module('pane.field')
+    words = ['ab', 'cd', 'abc', 'xy']
+    names = ['_'.join(c) for n in (1, 2, 3) for c in itertools.product(words, repeat=n)]
+    badnames = ['_ab', 'ab_', 'ab__cd', '__ab__', 'ab--cd', 'ab_-cd', '-ab', 'ab-', 'ab_cd_', '_', 'ab___cd']
+    out = []
+    for nm in (badnames if bad else names):
+        for st in ('snake', 'scream', 'kebab', 'camel', 'pascal'):
+            out.append((fm.rename_field, ['field', 'style'], (nm, st), f'rename_field({nm!r}, {st!r})'))
+    return out
+
+
+CUSTOM['pane.field:rename_field.bounded'] = lambda m: _rename_instances(False)
+CUSTOM['pane.field:rename_field.refusal'] = lambda m: _rename_instances(True)
+
+
+# ---- C17: class hierarchies ---------------------------------------------------------------------------------------------
+T_ = t.TypeVar('T_')
+U_ = t.TypeVar('U_')
+
+
+class HA(PaneBase):
+    x: int = 1
+    y: float = 2.0
+
+
+class HB(HA):
+    x: float = 9.0          # redeclared: stays first
+    z: float = field(default=3.0, kw_only=True)
+
+
+class HC(HB):
+    w: int = 4              # positional, goes before the keyword-only z
+
+
+class HD(HC, frozen=False, allow_extra=True, in_format=('struct', 'tuple'), kw_only=False):
+    v: int = 5
+
+
+class HE(HD):
+    u: int = 6
+
+
+class HMixin:
+    def helper(self):
+        return 1
+
+
+class HF(HMixin, HD):
+    t_: int = 7
+
+
+class HG(PaneBase, t.Generic[T_]):
+    a: T_
+    deep: t.Dict[str, t.List[T_]] = field(default_factory=dict)
+    opt: t.Optional[t.List[T_]] = None
+    pair: t.List[t.Tuple[str, T_]] = field(default_factory=list)
+
+
+class HH(HG[U_]):
+    b: U_ = None  # type: ignore
+
+
+class HI(HG[int]):
+    c: float = 0.0
+
+
+class HK(PaneBase, kw_only=True, rename='camel'):
+    first_one: int = 1
+
+
+class HL(HK):
+    second_one: int = 2
+
+
+def _process_instances(m):
+    hgi = HG[int]
+    hhs = HH[str]
+    cases = [
+        (HA, {}), (HB, {}), (HC, {}), (HD, {'opts': {'frozen': False, 'allow_extra': True}}),
+        (HE, {'opts': {'frozen': False, 'allow_extra': True, 'in_format': ('struct', 'tuple'), 'kw_only': False}}),
+        (HF, {'opts': {'frozen': False, 'allow_extra': True, 'in_format': ('struct', 'tuple')}}),
+        (hgi, {'types': {'a': int, 'deep': t.Dict[str, t.List[int]], 'opt': t.Optional[t.List[int]], 'pair': t.List[t.Tuple[str, int]]},
+               'values': [({'a': 1, 'deep': {'k': [1]}}, True), ({'a': 1, 'deep': {'k': ['x']}}, False), ({'a': 1, 'opt': ['x']}, False),
+                          ({'a': 1, 'pair': [['s', 'x']]}, False), ({'a': 'x'}, False)]}),
+        (hhs, {'types': {'a': str, 'b': str}, 'values': [({'a': 's', 'b': 'q'}, True), ({'a': 1}, False)]}),
+        (HI, {'types': {'a': int}, 'values': [({'a': 1, 'c': 2.0}, True), ({'a': 'x'}, False)]}),
+        (HL, {'opts': {'kw_only': True, 'out_rename': 'camel'}}),
+    ]
+    return [((lambda cls, expect: cls), ['cls', 'expect'], (c, e), f'class {getattr(c, "__name__", c)}') for c, e in cases]
+
+
+CUSTOM['pane.classes:_process.bounded'] = _process_instances
+
+
+def _subscript_case(kind):
+    """re-parameterisation spellings of generic dataclasses"""
+    V = t.TypeVar('V')
+    if kind == 'forwarded':                       # class H(G[V]) ; H[str]
+        class H1(HG[V]):
+            extra: V = None  # type: ignore
+        return H1[str].__pane_info__.fields[0].type
+    if kind == 'explicit-generic':                # class H(G[V], Generic[V]) ; H[str]
+        class H2(HG[V], t.Generic[V]):
+            extra: V = None  # type: ignore
+        return H2[str].__pane_info__.fields[0].type
+    if kind == 'partially-bound':                 # class H(G[int], Generic[V]) ; H[str]
+        class H3(HG[int], t.Generic[V]):
+            extra: V = None  # type: ignore
+        return (H3[str].__pane_info__.fields[0].type, H3[str].__pane_info__.fields[-1].type)
+    raise ValueError(kind)
+
+
+CUSTOM['pane.classes:_make_subclass.bounded'] = lambda m: [(_subscript_case, ['kind'], (k,), f'subscript[{k}]') for k in ('forwarded', 'explicit-generic', 'partially-bound')]
